@@ -25,6 +25,7 @@ func (fc *FCtx) iterSort() *Sort {
 	fc.U.Fun("it_idx", []*Sort{SInt, bz}, SInt)
 	fc.U.Fun("hasprefix", []*Sort{bz, bz}, SBool)
 	fc.U.Fun("bz_lt", []*Sort{bz, bz}, SBool)
+	fc.U.Axiom("a byte string is at least as long as any of its prefixes", "(forall ((a Bz) (b Bz)) (! (=> (hasprefix a b) (>= (bz_len a) (bz_len b))) :pattern ((hasprefix a b))))")
 	return s
 }
 
